@@ -3273,7 +3273,7 @@ func (bc *Blockchain) GetTestHistoricVM(t trigger.Type, tx *transaction.Transact
 	}
 	var mode = mpt.ModeAll
 	if bc.config.RemoveUntraceableBlocks {
-		if b.Index < bc.BlockHeight()-bc.GetMaxTraceableBlocks() {
+		if height, mtb := bc.BlockHeight(), bc.GetMaxTraceableBlocks(); height > mtb && b.Index < height-mtb {
 			return nil, fmt.Errorf("state for height %d is outdated and removed from the storage", b.Index)
 		}
 		mode |= mpt.ModeGCFlag
